@@ -865,7 +865,19 @@ func init() {
 	externals["strconv.ParseFloat"] = func(fr *frame, args []value) (value, bool) {
 		s, ok := args[0].(string)
 		if !ok {
-			panic(fr.in.unsupported("strconv.ParseFloat of a symbolic string"))
+			// float parsing is not encodable: case split over the feasible
+			// values of the symbolic bytes (few: the scanner has already
+			// restricted them to digits, sign and dot)
+			b := strBytes(args[0])
+			hb := make([]byte, len(b))
+			for i, e := range b {
+				if sv, isSym := e.(Sym); isSym {
+					hb[i] = byte(fr.in.concretize(sv.T, "ParseFloat byte"))
+				} else {
+					hb[i] = e.(uint8)
+				}
+			}
+			s = string(hb)
 		}
 		f, err := strconv.ParseFloat(s, int(asInt64(args[1])))
 		if err != nil {
